@@ -264,6 +264,46 @@ class World:
             return math.inf
         return value
 
+    def truth(self, expr, now=None):
+        """Independent evaluator: plain booleans over values read through the public API."""
+        k = expr["k"]
+        if k == "flag":
+            return bool(self.res[expr["n"]])
+        if k == "not":
+            return not self.truth(expr["x"], now)
+        if k == "and":
+            return all([self.truth(x, now) for x in expr["xs"]])
+        if k == "or":
+            return any([self.truth(x, now) for x in expr["xs"]])
+        if k == "cmp":
+            left = self.res[expr["l"]].value
+            right = expr["r"]
+            if isinstance(right, dict):
+                right = self.res[right["tr"]].value
+            return CMP[expr["op"]](left, right)
+        if k == "levels":
+            levels = dict(self.res[expr["res"]].levels)
+            pairs = [(levels[key], value) for key, value in expr["amounts"].items()]
+            for key in levels:
+                if key not in expr["amounts"]:
+                    pairs.append((levels[key], 0))
+            if expr["op"] == "!=":
+                return any(a != b for a, b in pairs)
+            return all(CMP[expr["op"]](a, b) for a, b in pairs)
+        if k == "time":
+            now = time.now if now is None else now
+            return CMP[expr["op"]](now, self.num(expr["t"]))
+        if k == "done":
+            task = self.tasks.get(expr["task"])
+            return False if task is None else task.status.name not in ("CREATED", "RUNNING")
+        if k == "instant":
+            return True
+        if k == "eternity":
+            return False
+        if k == "shared":
+            return self.truth(expr["x"], now)
+        raise ValueError("unknown expression %r" % k)
+
     # ---- fault injection (called by the seam between/inside activations) --------------
     def inject(self, fault):
         kind = fault["kind"]
@@ -476,9 +516,13 @@ class World:
     async def op_wait(self, a, op):
         """await <condition expression>"""
         cond = self.build(op["x"])
-        self.log(a, "wait+", op.get("id"))
-        await cond
-        self.log(a, "wait-", op.get("id"), bool(cond) if op.get("probe", True) else None)
+        self.log(a, "wait+", op.get("id"), bool(cond), self.truth(op["x"]))
+        try:
+            await cond
+        except BaseException as err:
+            self.log(a, "wait!", op.get("id"), self.meta(err))
+            raise
+        self.log(a, "wait-", op.get("id"), bool(cond), self.truth(op["x"]))
 
     # -- lock
     async def op_lock(self, a, op):
@@ -804,6 +848,10 @@ class World:
             self.log(a, "first-", tag, got)
 
 
+def _silent_hook(unraisable):
+    """Finalisers of abandoned simulations (blocked activities) complain; not our subject."""
+
+
 def _unraisable_collector(store):
     def hook(unraisable):
         store.append((type(unraisable.exc_value).__name__,
@@ -899,12 +947,11 @@ def cleanup(record, collect_every=16):
         world.scopes.clear()
         world.conds.clear()
         world.junk.clear()
-    old_hook = sys.unraisablehook
-    sys.unraisablehook = lambda unraisable: None
+    sys.unraisablehook = _silent_hook
     try:
         del world
         _CLEANUPS[0] += 1
         if _CLEANUPS[0] % collect_every == 0:
             gc.collect()
     finally:
-        sys.unraisablehook = sys.__unraisablehook__
+        sys.unraisablehook = _silent_hook
